@@ -32,16 +32,16 @@ CONS = {
 FORMS = {"x1_ge": "ge", "x1_gt": "gt", "x1_lt_rev": "lt_rev", "prod_gt": "gt", "sum_lt": "lt", "ub_ge": "ub_ge"}
 
 
-def impose(ocp, con, e, lb, ub):
+def impose(ocp, con, e, lb, ub, **kw):
     form = FORMS.get(con)
-    if form == "ge": ocp.subject_to(e >= lb, grid="inf")
-    elif form == "gt": ocp.subject_to(e > lb, grid="inf")
-    elif form == "lt_rev": ocp.subject_to(lb < e, grid="inf")
-    elif form == "lt": ocp.subject_to(e < ub, grid="inf")
-    elif form == "ub_ge": ocp.subject_to(ub >= e, grid="inf")
-    elif lb is None: ocp.subject_to(e <= ub, grid="inf")
-    else: ocp.subject_to(lb <= (e <= ub), grid="inf")
-BAD = ["sin", "control", "time", "param", "expl_euler", "dc_deg3", "cvodes"]
+    if form == "ge": ocp.subject_to(e >= lb, grid="inf", **kw)
+    elif form == "gt": ocp.subject_to(e > lb, grid="inf", **kw)
+    elif form == "lt_rev": ocp.subject_to(lb < e, grid="inf", **kw)
+    elif form == "lt": ocp.subject_to(e < ub, grid="inf", **kw)
+    elif form == "ub_ge": ocp.subject_to(ub >= e, grid="inf", **kw)
+    elif lb is None: ocp.subject_to(e <= ub, grid="inf", **kw)
+    else: ocp.subject_to(lb <= (e <= ub), grid="inf", **kw)
+BAD = ["sin", "control", "time", "param", "pow15", "expl_euler", "dc_deg3", "cvodes"]
 
 
 def declare(case, with_inf=True):
@@ -64,12 +64,17 @@ def declare(case, with_inf=True):
             ocp.subject_to(x1 + u <= 0.9, grid="inf")
         elif bad == "time":
             ocp.subject_to(x1 * ocp.t <= 0.9, grid="inf")
+        elif bad == "pow15":
+            ocp.subject_to(x1 ** 1.5 <= 2.0, grid="inf")       # not a polynomial
         elif bad == "param":
             p = ocp.parameter(grid="control"); ocp.set_value(p, np.ones((1, case["N"])))
             ocp.subject_to(x1 * p <= 0.9, grid="inf")
         else:
             e, lb, ub = CONS[case.get("con", "x1_le")](x1, x2, ocp.inf_der(x1), ocp.inf_inert(ocp.t))
-            impose(ocp, case.get("con", "x1_le"), e, lb, ub)
+            kw = {}
+            if case.get("inc") == "no_first": kw["include_first"] = False
+            if case.get("inc") == "no_last": kw["include_last"] = False
+            impose(ocp, case.get("con", "x1_le"), e, lb, ub, **kw)
     ocp.solver("ipopt", {"ipopt.print_level": 0, "print_time": False, "ipopt.sb": "yes"})
     g = {"uniform": lambda: UniformGrid(), "geom": lambda: GeometricGrid(3), "free": lambda: FreeGrid(min=0.05, max=2.0)}[case["grid"]]()
     meth = case["method"]
@@ -105,6 +110,13 @@ def cases(tier):
                             if tier != "thorough" and N == 3 and M == 2 and g == "free":
                                 continue
                             out.append(dict(kind="sound", con=con, method=meth, N=N, M=M, grid=g, horizon=hz))
+    # include_first / include_last exclude at most single points: the guarantee between grid points is the same
+    for con in ("x1_le", "prod_le", "x1_between", "x1_gt"):
+        for meth in ("SS", "MS", "DC"):
+            for g in ("uniform", "geom"):
+                for inc in ("no_first", "no_last"):
+                    for N, M in ((2, 2), (3, 1)):
+                        out.append(dict(kind="sound", con=con, method=meth, N=N, M=M, grid=g, horizon="fixed", inc=inc))
     for bad in BAD:
         for meth in ("SS", "MS", "DC"):
             if bad in ("expl_euler", "cvodes", "dc_deg3") and meth != "MS":
@@ -179,7 +191,7 @@ def true_slack(case, steps):
 
 def run_sound(case):
     import sys
-    tags = ["con=%s" % case["con"], "method=%s" % case["method"], "N=%d" % case["N"], "M=%d" % case["M"], "grid=%s" % case["grid"], "horizon=%s" % case["horizon"]]
+    tags = ["con=%s" % case["con"], "method=%s" % case["method"], "N=%d" % case["N"], "M=%d" % case["M"], "grid=%s" % case["grid"], "horizon=%s" % case["horizon"]] + (["inc=%s" % case["inc"]] if case.get("inc") else [])
     vios = []
     try:
         ocpA, sym = declare(case, True)
